@@ -7,9 +7,11 @@ import GivaroModel.Generated.Footprint
 namespace Givaro.Props.C16
 open Givaro.Gen.Footprint
 
-/-- the process-wide state the property excludes by name: the big-integer random state (`Integer::randstate()`, a function-local
-    static of gmp++_int_rand.inl) -/
-def documentedStatics : List String := ["local:randstate", "write:randstate"]
+/-- the process-wide state the library documents and the property does not count as hidden: the big-integer random state
+    (`Integer::randstate()`, a function-local static of gmp++_int_rand.inl, read and advanced by the random draws) and the reduction
+    mode of `Rational` (`Rational::SetReduce()/SetNoReduce()`), which the rational field operations may READ but never write
+    (a `write:Rational::flags` entry is not in this list) -/
+def documentedStatics : List String := ["local:randstate", "write:randstate", "Rational::flags"]
 
 /-- member functions of domain classes touch no static storage other than the documented one -/
 theorem no_hidden_state : ∀ r ∈ rows, ∀ s ∈ r.statics, s ∈ documentedStatics := by decide +kernel
